@@ -32,6 +32,14 @@ def spelling (d : Dialect) (kind : Nat) : Option (List UInt8) :=
   | .tpl => Tokens.Tpl.tokenBytes.lookup kind
   | .go => Tokens.Go.tokenBytes.lookup kind
 
+/-- `IsOperator()` of the dialect's token package (tpl has no such method: its operators and
+delimiters are the table entries above the literal classes) -/
+def isOpCode (d : Dialect) (k : Nat) : Bool :=
+  match d with
+  | .xgo => Tokens.XGo.isOperator k
+  | .tpl => decide (Tokens.Tpl.literal_end < k)
+  | .go => Tokens.Go.isOperator k
+
 /-- The possible shapes of a returned token with respect to the source text. -/
 inductive TokOK (d : Dialect) (src : Array UInt8) (t : Token) : Prop where
   /-- identifier, keyword, number, unit, rune: the literal is the source span -/
@@ -48,11 +56,13 @@ inductive TokOK (d : Dialect) (src : Array UInt8) (t : Token) : Prop where
   /-- operator / delimiter: the spelling of the token is the source span; the literal is empty
   (";" for an explicit semicolon) -/
   | op (hs : spelling d t.kind = some (slice src t.pos t.stop)) (hne : t.pos < t.stop)
-       (hl : t.lit = [] ∨ (t.kind = (codes d).SEMICOLON ∧ t.lit = [0x3B]))
+       (hl : t.lit = [] ∨ (t.kind = (codes d).SEMICOLON ∧ t.lit = [0x3B])) (hkne : t.kind ≠ (codes d).EOF)
+       (hop : isOpCode d t.kind = true)
   /-- ILLEGAL (the offending character, at least one byte) -/
   | illegal (hk : t.kind = (codes d).ILLEGAL) (hne : t.pos < t.stop)
   /-- automatically inserted semicolon (zero width, or the newline byte it stands for) and EOF -/
-  | auto (hk : (t.kind = (codes d).SEMICOLON ∧ t.lit = [0x0A]) ∨ (t.kind = (codes d).EOF ∧ t.lit = []))
+  | auto (hk : (t.kind = (codes d).SEMICOLON ∧ t.lit = [0x0A]) ∨
+               (t.kind = (codes d).EOF ∧ t.lit = [] ∧ t.pos = src.size))
          (hw : t.stop = t.pos ∨ (t.stop = t.pos + 1 ∧ byteAt src t.pos = 0x0A))
 
 /-- what `scanStep` guarantees (dialects xgo, tpl) -/
@@ -205,22 +215,26 @@ theorem autoSemi_spec (cfg : Cfg) {st0 st : St} {pos : Nat}
 
 /-! ### operator tries: the consumed bytes spell the token -/
 
-def trieSpelled (tbl : List (Nat × List UInt8)) : List UInt8 → Trie → Bool
-  | p, .leaf t _ _ => tbl.lookup t == some p
-  | p, .test c y n => decide (c < 0x80) && trieSpelled tbl (p ++ [UInt8.ofNat c]) y && trieSpelled tbl p n
+/-- every leaf's token is spelled by the path to it, and is not the EOF token -/
+def trieSpelled (tbl : List (Nat × List UInt8)) (okTok : Nat → Bool) : List UInt8 → Trie → Bool
+  | p, .leaf t _ _ => tbl.lookup t == some p && okTok t
+  | p, .test c y n => decide (c < 0x80) && trieSpelled tbl okTok (p ++ [UInt8.ofNat c]) y && trieSpelled tbl okTok p n
 
-def opsSpelled (tbl : List (Nat × List UInt8)) (ops : List (Nat × Trie)) : Bool :=
-  ops.all fun e => decide (e.1 < 0x80) && trieSpelled tbl [UInt8.ofNat e.1] e.2
+def opsSpelled (tbl : List (Nat × List UInt8)) (okTok : Nat → Bool) (ops : List (Nat × Trie)) : Bool :=
+  ops.all fun e => decide (e.1 < 0x80) && trieSpelled tbl okTok [UInt8.ofNat e.1] e.2
 
-theorem xgo_ops_spelled : opsSpelled Tokens.XGo.tokenBytes ScanSwitch.xgoOps = true := by decide +kernel
-theorem tpl_ops_spelled : opsSpelled Tokens.Tpl.tokenBytes ScanSwitch.tplOps = true := by decide +kernel
+/-- a leaf token must be an operator/delimiter of the dialect and not EOF -/
+def okOpTok (d : Dialect) (t : Nat) : Bool := t != (codes d).EOF && isOpCode d t
 
-theorem walk_spelled (tbl : List (Nat × List UInt8)) : ∀ (t : Trie) (p : List UInt8) (st : St) (pos : Nat),
-    trieSpelled tbl p t = true → Inv src st → pos ≤ st.off → slice src pos st.off = p →
-    tbl.lookup (walk src t st).2.1 = some (slice src pos (walk src t st).1.off)
+theorem xgo_ops_spelled : opsSpelled Tokens.XGo.tokenBytes (okOpTok .xgo) ScanSwitch.xgoOps = true := by decide +kernel
+theorem tpl_ops_spelled : opsSpelled Tokens.Tpl.tokenBytes (okOpTok .tpl) ScanSwitch.tplOps = true := by decide +kernel
+
+theorem walk_spelled (tbl : List (Nat × List UInt8)) (okTok : Nat → Bool) : ∀ (t : Trie) (p : List UInt8) (st : St) (pos : Nat),
+    trieSpelled tbl okTok p t = true → Inv src st → pos ≤ st.off → slice src pos st.off = p →
+    tbl.lookup (walk src t st).2.1 = some (slice src pos (walk src t st).1.off) ∧ okTok (walk src t st).2.1 = true
   | .leaf tk _ _, p, st, pos, h, _, _, hs => by
     simp only [walk]
-    simp only [trieSpelled, beq_iff_eq] at h
+    simp only [trieSpelled, Bool.and_eq_true, beq_iff_eq] at h
     rw [hs]; exact h
   | .test c y n, p, st, pos, h, hi, hp, hs => by
     simp only [trieSpelled, Bool.and_eq_true, decide_eq_true_eq] at h
@@ -228,8 +242,8 @@ theorem walk_spelled (tbl : List (Nat × List UInt8)) : ∀ (t : Trie) (p : List
     split
     · rename_i hc
       obtain ⟨e1, e2, _⟩ := slice_snoc hi hp hc h.1.1
-      exact walk_spelled tbl y _ _ pos h.1.2 (next_inv hi) (by omega) (by rw [e1, hs])
-    · exact walk_spelled tbl n p st pos h.2 hi hp hs
+      exact walk_spelled tbl okTok y _ _ pos h.1.2 (next_inv hi) (by omega) (by rw [e1, hs])
+    · exact walk_spelled tbl okTok n p st pos h.2 hi hp hs
 
 
 /-! ### the branches of `Scan` -/
@@ -417,6 +431,16 @@ theorem scanCommentTok_spec (cfg : Cfg) (hd : cfg.d ≠ .go) (fuel : Nat) (hF : 
 
 /-! ### table facts used by the hand-written cases -/
 
+theorem okOpTok_spec {d : Dialect} {t : Nat} (h : okOpTok d t = true) : t ≠ (codes d).EOF ∧ isOpCode d t = true := by
+  simpa [okOpTok] using h
+
+theorem hand_ops_ok (d : Dialect) (hd : d ≠ .go) :
+    okOpTok d (codes d).SEMICOLON = true ∧ okOpTok d (codes d).PERIOD = true ∧ okOpTok d (codes d).ELLIPSIS = true := by
+  cases d
+  · decide +kernel
+  · decide +kernel
+  · exact absurd rfl hd
+
 theorem spelling_semicolon (d : Dialect) (hd : d ≠ .go) : spelling d (codes d).SEMICOLON = some [0x3B] := by
   cases d
   · decide +kernel
@@ -449,15 +473,81 @@ theorem mem_of_lookup {α : Type} {l : List (Nat × α)} {k : Nat} {v : α} (h :
 
 theorem ops_lookup_spelled (d : Dialect) (hd : d ≠ .go) {ch : Nat} {t : Trie} (h : (codes d).ops.lookup ch = some t) :
     ch < 0x80 ∧ ∀ (st : St) (pos : Nat), Inv src st → pos ≤ st.off → slice src pos st.off = [UInt8.ofNat ch] →
-      spelling d (walk src t st).2.1 = some (slice src pos (walk src t st).1.off) := by
+      spelling d (walk src t st).2.1 = some (slice src pos (walk src t st).1.off) ∧
+      okOpTok d (walk src t st).2.1 = true := by
   have hm := mem_of_lookup h
   cases d
   · have := (List.all_eq_true.mp xgo_ops_spelled) _ hm
     simp only [Bool.and_eq_true, decide_eq_true_eq] at this
-    exact ⟨this.1, fun st pos hi hp hs => walk_spelled _ t _ st pos this.2 hi hp hs⟩
+    exact ⟨this.1, fun st pos hi hp hs => walk_spelled _ _ t _ st pos this.2 hi hp hs⟩
   · have := (List.all_eq_true.mp tpl_ops_spelled) _ hm
     simp only [Bool.and_eq_true, decide_eq_true_eq] at this
-    exact ⟨this.1, fun st pos hi hp hs => walk_spelled _ t _ st pos this.2 hi hp hs⟩
+    exact ⟨this.1, fun st pos hi hp hs => walk_spelled _ _ t _ st pos this.2 hi hp hs⟩
   · exact absurd rfl hd
+
+/-- the token codes the hand-written cases use are pairwise different from EOF -/
+theorem codes_ne_eof (d : Dialect) (hd : d ≠ .go) :
+    (codes d).IDENT ≠ (codes d).EOF ∧ (codes d).INT ≠ (codes d).EOF ∧ (codes d).FLOAT ≠ (codes d).EOF ∧
+    (codes d).IMAG ≠ (codes d).EOF ∧ (codes d).RAT ≠ (codes d).EOF ∧ (codes d).UNIT ≠ (codes d).EOF ∧
+    (codes d).CHAR ≠ (codes d).EOF ∧ (codes d).STRING ≠ (codes d).EOF ∧ (codes d).COMMENT ≠ (codes d).EOF ∧
+    (codes d).CSTRING ≠ (codes d).EOF ∧ (codes d).PYSTRING ≠ (codes d).EOF ∧ (codes d).ILLEGAL ≠ (codes d).EOF ∧
+    (codes d).SEMICOLON ≠ (codes d).EOF ∧ (codes d).PERIOD ≠ (codes d).EOF ∧ (codes d).ELLIPSIS ≠ (codes d).EOF ∧
+    (∀ e ∈ (codes d).keywords, e.2 ≠ (codes d).EOF) := by
+  cases d
+  · refine ⟨by decide, by decide, by decide, by decide, by decide, by decide, by decide, by decide, by decide,
+      by decide, by decide, by decide, by decide, by decide, by decide, ?_⟩
+    have : (xgoCodes.keywords.all fun e => e.2 != xgoCodes.EOF) = true := by decide +kernel
+    intro e he
+    have := (List.all_eq_true.mp this) e he
+    simpa [codes] using this
+  · refine ⟨by decide, by decide, by decide, by decide, by decide, by decide, by decide, by decide, by decide,
+      by decide, by decide, by decide, by decide, by decide, by decide, ?_⟩
+    intro e he; simp [codes, tplCodes] at he
+  · exact absurd rfl hd
+
+theorem mem_of_lookup' {l : List (List UInt8 × Nat)} {k : List UInt8} {v : Nat} (h : l.lookup k = some v) : (k, v) ∈ l := by
+  induction l with
+  | nil => simp at h
+  | cons a t ih =>
+    obtain ⟨k', v'⟩ := a
+    simp only [List.lookup_cons] at h
+    split at h
+    · rename_i hk
+      have : k = k' := by simpa using hk
+      cases h; rw [this]; simp
+    · simp [ih h]
+
+/-- a token whose kind is EOF is the end-of-file token, at the end of the source -/
+theorem TokOK.eof_pos {d : Dialect} (hd : d ≠ .go) {t : Token} (h : TokOK d src t) (hk : t.kind = (codes d).EOF) :
+    t.pos = src.size := by
+  obtain ⟨c1, c2, c3, c4, c5, c6, c7, c8, c9, c10, c11, c12, c13, c14, c15, ckw⟩ := codes_ne_eof d hd
+  cases h with
+  | exact hk' _ _ =>
+    rw [hk] at hk'
+    rcases hk' with h | h | h | h | h | h | h | ⟨l, h⟩
+    · exact absurd h.symm c1
+    · exact absurd h.symm c2
+    · exact absurd h.symm c3
+    · exact absurd h.symm c4
+    · exact absurd h.symm c5
+    · exact absurd h.symm c6
+    · exact absurd h.symm c7
+    · exact absurd rfl (ckw _ (mem_of_lookup' h))
+  | text hk' _ _ =>
+    rw [hk] at hk'
+    rcases hk' with h | h
+    · exact absurd h.symm c8
+    · exact absurd h.symm c9
+  | prefixed _ n hk' _ _ =>
+    rw [hk] at hk'
+    rcases hk' with ⟨h, _⟩ | ⟨h, _⟩
+    · exact absurd h.symm c10
+    · exact absurd h.symm c11
+  | op _ _ _ hkne _ => exact absurd hk hkne
+  | illegal hk' _ => rw [hk] at hk'; exact absurd hk'.symm c12
+  | auto hk' _ =>
+    rcases hk' with ⟨h, _⟩ | ⟨_, _, h⟩
+    · rw [hk] at h; exact absurd h.symm c13
+    · exact h
 
 end GopModel.Scan
